@@ -860,4 +860,60 @@ theorem reopen_getSRec (P : Prim) (del : Bool) (s : St) (hrt : ∀ i, dec (enc i
     simp only [hleaf, hne, if_false, decSRec, hrt, Option.bind_some, srec_rt]
 
 
+
+/-! ## sets of writes -/
+
+
+def writeAll (c : Content) (l : List (Bytes × Bytes)) : Content := l.foldl (fun c kv => cput c kv.1 kv.2) c
+
+theorem writeAll_get_absent (l : List (Bytes × Bytes)) (c : Content) (k : Bytes) (h : ∀ kv ∈ l, kv.1 ≠ k) :
+    cget (writeAll c l) k = cget c k := by
+  induction l generalizing c with
+  | nil => rfl
+  | cons x t ih =>
+    simp only [writeAll, List.foldl_cons]
+    have := ih (cput c x.1 x.2) (fun kv hkv => h kv (List.mem_cons_of_mem _ hkv))
+    simp only [writeAll] at this
+    rw [this, cget_cput, if_neg (h x List.mem_cons_self)]
+
+theorem writeAll_get_mem (l : List (Bytes × Bytes)) (c : Content) (k v : Bytes) (hn : (l.map (·.1)).Nodup) (hm : (k, v) ∈ l) :
+    cget (writeAll c l) k = v := by
+  induction l generalizing c with
+  | nil => simp at hm
+  | cons x t ih =>
+    simp only [List.map_cons, List.nodup_cons] at hn
+    simp only [writeAll, List.foldl_cons]
+    rcases List.mem_cons.mp hm with h | h
+    · subst h
+      have := writeAll_get_absent t (cput c k v) k (fun kv hkv heq => hn.1 (heq ▸ List.mem_map_of_mem (f := (·.1)) hkv))
+      simp only [writeAll] at this
+      rw [this, cget_cput, if_pos rfl]
+    · have := ih (cput c x.1 x.2) hn.2 h
+      simpa [writeAll] using this
+
+/-- folding a set of writes with distinct keys into a content gives the same content in any order -/
+theorem writeAll_perm (c : Content) (l₁ l₂ : List (Bytes × Bytes)) (hp : l₁.Perm l₂) (hn : (l₁.map (·.1)).Nodup) :
+    CEq (writeAll c l₁) (writeAll c l₂) := by
+  intro k
+  have hn2 : (l₂.map (·.1)).Nodup := (hp.map _).nodup_iff.mp hn
+  by_cases hk : ∃ v, (k, v) ∈ l₁
+  · obtain ⟨v, hv⟩ := hk
+    rw [writeAll_get_mem l₁ c k v hn hv, writeAll_get_mem l₂ c k v hn2 (hp.mem_iff.mp hv)]
+  · have h1 : ∀ kv ∈ l₁, kv.1 ≠ k := fun kv hkv heq => hk ⟨kv.2, by rw [← heq]; exact hkv⟩
+    have h2 : ∀ kv ∈ l₂, kv.1 ≠ k := fun kv hkv => h1 kv (hp.mem_iff.mpr hkv)
+    rw [writeAll_get_absent l₁ c k h1, writeAll_get_absent l₂ c k h2]
+
+theorem cput_comm (c : Content) (k₁ v₁ k₂ v₂ : Bytes) (h : k₁ ≠ k₂) :
+    CEq (cput (cput c k₁ v₁) k₂ v₂) (cput (cput c k₂ v₂) k₁ v₁) := by
+  intro k
+  simp only [cget_cput]
+  by_cases h1 : k₁ = k <;> by_cases h2 : k₂ = k <;> simp [h1, h2]
+  exact absurd (h1.trans h2.symm) h
+
+theorem cput_last_wins (c : Content) (k v₁ v₂ : Bytes) : CEq (cput (cput c k v₁) k v₂) (cput c k v₂) := by
+  intro k'
+  simp only [cget_cput]
+  by_cases h1 : k = k' <;> simp [h1]
+
+
 end YouVerif.C10
